@@ -7,6 +7,7 @@ observations (downstream iff allowed, single generic 403, no id/reason in the bo
 from __future__ import annotations
 
 import asyncio
+import copy
 import itertools
 import random
 
@@ -152,6 +153,75 @@ def overlap_probes(run: lib.Run) -> None:
             if seen != want:
                 run.spec_failures.append({"part": "overlap", "first_allowed": first_allowed, "context_differs": ctx_differs, "observed": seen, "expected": want,
                                           "policy": pol, "spec": "overlapping requests that differ in roles only did not each get their own verdict"})
+
+
+def sequence_probes(run: lib.Run) -> None:
+    """a SEQUENCE of requests through ONE long-lived middleware (what a server does), diagnostics switched on and off at run time through
+    the public attribute: denials by different rules / reasons, permits in between.  Every response — status, the exact header list, the
+    body — must be the one a FRESH middleware with the settings of that moment gives to that request alone."""
+    import itertools as it
+    from rbacx.core.engine import Guard
+    from rbacx.core.model import Action, Context, Resource, Subject
+    pol = {"algorithm": "deny-overrides", "rules": [
+        {"id": "no-delete", "effect": "deny", "actions": ["delete"], "resource": {"type": "doc"}},
+        {"id": "no-write", "effect": "deny", "actions": ["write"], "resource": {"type": "doc"}},
+        {"id": "mfa-read", "effect": "permit", "actions": ["read"], "resource": {"type": "doc"}, "obligations": [{"type": "require_mfa"}]},
+        {"id": "list", "effect": "permit", "actions": ["list"], "resource": {"type": "doc"}}]}
+    reqs = {"delete": ("delete", {}), "write": ("write", {}), "read-no-mfa": ("read", {}), "list": ("list", {}), "nothing": ("purge", {})}
+
+    def builder(scope):
+        act, ctx = reqs[scope["which"]]
+        return Subject(id="u1", roles=[]), Action(act), Resource(type="doc", id="1"), Context(attrs=dict(ctx))
+
+    async def serve(mw, which):
+        out: list = []
+
+        async def send(msg):
+            if msg["type"] == "http.response.start":
+                out.append(["start", msg["status"], [[k.decode("latin-1"), v.decode("latin-1")] for k, v in msg["headers"]]])
+            else:
+                out.append([msg["type"], (msg.get("body") or b"").decode("latin-1")])
+
+        async def receive():
+            return {"type": "http.request"}
+        try:
+            await mw({"type": "http", "which": which, "method": "GET", "path": "/d/1"}, receive, send)
+        except Exception as e:  # noqa: BLE001
+            out.append(["raise", type(e).__name__])
+        return out
+
+    def make(add_headers, log):
+        async def app(scope, receive, send):
+            log.append("downstream")
+        return RbacxMiddleware(app, guard=Guard(copy.deepcopy(pol)), mode="enforce", build_env=builder, add_headers=add_headers)
+    names = list(reqs)
+    seqs = [list(x) for n in (2, 3) for x in it.product(names, repeat=n)]
+    seqs += [["delete", "write", "read-no-mfa", "nothing", "list", "delete", "write"]]
+    for seq in seqs:
+        for toggles in ([True] * len(seq), [True, False] * len(seq), [False, True] * len(seq)):
+            async def scenario():
+                log_long: list = []
+                mw = make(toggles[0], log_long)
+                steps = []
+                for i, which in enumerate(seq):
+                    mw.add_headers = toggles[i]
+                    n0 = len(log_long)
+                    got = await serve(mw, which) + log_long[n0:]
+                    log_fresh: list = []
+                    want = await serve(make(toggles[i], log_fresh), which) + log_fresh
+                    steps.append((which, toggles[i], got, want))
+                return steps
+            steps = asyncio.run(scenario())
+            run.evaluations += 1
+            run.count("sequence-probe")
+            run.nontrivial.add(f"seq{seq}{toggles[:2]}")
+            bad = next((k for k, (_, _, got, want) in enumerate(steps) if got != want), None)
+            if bad is not None:
+                run.spec_failures.append({"part": "sequence", "requests": seq, "add_headers_at_each_request": toggles[:len(seq)], "first_wrong_response": bad,
+                                          "observed": steps[bad][2], "expected": steps[bad][3], "policy": pol,
+                                          "spec": "a long-lived middleware answered a request differently from a fresh middleware with the same settings "
+                                                  "(the response depends on earlier requests: headers or body carried over)"})
+                return
 
 
 def acfgs():
@@ -432,6 +502,7 @@ def check(run: lib.Run, audit: dict) -> int:
     run.obligation("translated middleware acts like the real RbacxMiddleware (translator + Model/PyTrace.lean + Model/PyLib.lean vs CPython)", ok_py, detail_py)
     run_cases(run, audit, scale=run.boost * (1 if ok_tr else 2))
     overlap_probes(run)
+    sequence_probes(run)
     violations = []
     if (run.disagreements or not ok_tr) and not run.spec_failures:
         run_cases(run, audit, scale=4)        # the model or the translation tie broke: widen the search for a failing input
@@ -462,7 +533,13 @@ def replay(run: lib.Run, audit: dict, path: str) -> int:
     import json
     rp = json.load(open(path))
     c = rp.get("case") or rp.get("first")
-    if not c or "policy" not in c:
+    if c and c.get("part") == "sequence":
+        sequence_probes(run)
+        now = [f for f in run.spec_failures if f.get("part") == "sequence"]
+        print("now:", json.dumps(now[0], default=str)[:3000] if now else "every response of every sequence equals a fresh middleware's")
+        print("recorded:", json.dumps(c, default=str)[:3000])
+        return 1 if now else 0
+    if not c or "policy" not in c or "request" not in c:
         print("recorded:", json.dumps(c or rp, default=str)[:3000])
         return 0
     print("observed now:", observe(c["policy"], c["request"], c["cfg"], c["asgi"])[0])
